@@ -1451,6 +1451,21 @@ func genC17Repr(g *Rng, thorough bool, emit func(Op)) {
 		}
 		emit(Op{"op": "repr-complete", "class": "holds", "label": "true", "gp": hx(gp), "bases": namedAny(ex2),
 			"lhs": []any{[]any{"x", hxi(1)}}, "rhs": rhs, "secrets": namedAny(secrets), "randomizers": namedAny(rands), "challenge": hx(ch)})
+		// the same relation with a left-hand power whose low machine word is 1 (a public value such
+		// as a key's base enters as the integer it is): y^(1 + k*2^64) = x
+		for _, k := range []int64{1, 2, 3} {
+			pw := new(big.Int).Add(bi(1), new(big.Int).Lsh(bi(k), 64))
+			inv := new(big.Int).ModInverse(modI(pw, order), order)
+			if inv == nil {
+				continue
+			}
+			exy := map[string]*big.Int{"x": expI(x, inv, gp)}
+			for kk, v := range extra {
+				exy[kk] = v
+			}
+			emit(Op{"op": "repr-complete", "class": "holds-large-left-power", "label": "true", "ref": true, "fkey": "C17/left-power-low-word", "gp": hx(gp), "bases": namedAny(exy),
+				"lhs": []any{[]any{"x", hx(pw)}}, "rhs": rhs, "secrets": namedAny(secrets), "randomizers": namedAny(rands), "challenge": hx(ch)})
+		}
 		// and one that does not: x*g
 		ex3 := map[string]*big.Int{"x": modI(mulI(x, grp.G), gp)}
 		for kk, v := range extra {
